@@ -519,6 +519,24 @@ def covered_rec(a, msg):
     return None
 
 
+def impl_doc_history(a):
+    msg = check_doc_history(a)
+    return {"ok": "same-as-fresh"} if msg is None else {"err": msg}
+
+
+def cmp_doc_history(mo, io, a):
+    if "ok" in io:
+        return True
+    return covered_doc_history(a, io["err"]) is not None
+
+
+CORRS.append(
+    Corr("c14.doc_history", gen_doc_history, impl_doc_history, spec=lambda a: {"ok": "same-as-fresh"}, compare=cmp_doc_history,
+         nontrivial=lambda a, o: len(a["steps"]) >= 2,
+         describe="spec-level: document-level histories (XML/JSON parse and render, failing calls, resets) through shared "
+                  "parser/serializer/context instances vs fresh instances, call by call; expected: equal outside the listed findings")
+)
+
 ORACLES = [
     Oracle("ctx-history", gen_ctx_history, check_ctx_history, covered_ctx_history, from_ops=("ctx.run",)),
     Oracle("doc-history", gen_doc_history, check_doc_history, covered_doc_history),
